@@ -31,12 +31,31 @@ let cres_s = function
 let fatal_s = function
   | FNotPending -> "notpending" | FUnparseable -> "unparseable" | FEmptyBatch -> "emptybatch"
   | FBadBatchId -> "badbatchid" | FTransport -> "transport"
-let cause_s = function CSend -> "sendfault" | CRecv -> "recvfault" | CPeer -> "peerclosed" | CFrame f -> fatal_s f
+let cause_s = function CSend -> "sendfault" | CRecv -> "recvfault" | CPeer -> "peerclosed" | CFrame f -> fatal_s f | CInactive -> "inactive"
 let next_s = function
   | NItem x -> "item:" ^ hex_of_bytes x | NEndLagged -> "endlag" | NEndClosed -> "endclosed" | NPending -> "pending"
 
-(* the engine names its methods after the handle *)
-let parse_cmd toks =
+(* the ping configuration of the line: (interval ms, limit ms, max_failures) *)
+let ping_cfg : (int * int * int) option ref = ref None
+
+(* the engine names its methods after the handle; one step of the script is a list of model commands:
+   `quiet <ms> die|alive` = the ticks of the two interval streams that the silence certainly produces (the python side
+   only emits the two safe classes: die = enough stale ticks to reach max_failures, alive = no stale tick) *)
+let rec parse_step toks =
+  match toks with
+  | ["pong"] -> [KPong]
+  | ["quiet"; ms; cls] ->
+    (match !ping_cfg with
+     | None -> [KSettle]
+     | Some (interval, _, maxf) ->
+       (if int_of_string ms >= 2 * interval then [KPing] else [])
+       @ (match cls with
+           | "die" -> List.init maxf (fun _ -> KInact true)
+           | "stale1" -> [KInact true]          (* a silence with at least one stale tick; the flattened comparison only *)
+           | _ -> [KInact false]))
+  | ["failping"; _] -> [KFailSend; KPing]
+  | _ -> [parse_cmd toks]
+and parse_cmd toks =
   match toks with
   | ["call"; h] | ["newcall"; h] -> KCall0 (n_of_string h, FCall (n_of_string h, bytes_of_string ("m" ^ h), None))
   | ["batch"; h; n] ->
@@ -77,15 +96,25 @@ let show_step outs =
   let xs = List.filter_map (function YX k -> Some (hnum k) | _ -> None) outs in
   let xs = List.filter_map (fun (k, name) -> if List.mem k xs then Some name else None)
       [(0, "Xclosing"); (1, "Xsdrop"); (2, "Xrdrop")] in
-  String.concat "," (ws @ cs @ ds @ ex @ xs)
+  let ps = if List.exists (function YPing -> true | _ -> false) outs then ["Wping"] else [] in
+  String.concat "," (ps @ ws @ cs @ ds @ ex @ xs)
 
 let handle line =
   match String.split_on_char '|' line with
   | [cfg; script] ->
-    let y0 = sys_init (String.trim cfg = "1") in
+    let cfgt = split_ws cfg in
+    ping_cfg := None;
+    List.iter (fun t ->
+        if String.length t > 1 && t.[0] = 'P' then
+          match String.split_on_char ',' (String.sub t 1 (String.length t - 1)) with
+          | [a; b; c] -> ping_cfg := Some (int_of_string a, int_of_string b, int_of_string c)
+          | _ -> failwith ("bad ping config: " ^ t)) cfgt;
+    let y0 = sys_init (List.mem "1" cfgt)
+        (match !ping_cfg with Some (_, _, m) -> Some (n_of_string (string_of_int m)) | None -> None) in
     let steps = List.filter (fun t -> t <> []) (List.map split_ws (String.split_on_char ';' script)) in
     let (yf, outs) = List.fold_left (fun (y, acc) toks ->
-        let (y', o) = script_step y (parse_cmd toks) in (y', show_step o :: acc)) (y0, []) steps in
+        let (y', o) = List.fold_left (fun (y1, o1) k -> let (y2, o2) = script_step y1 k in (y2, o1 @ o2)) (y, []) (parse_step toks) in
+        (y', show_step o :: acc)) (y0, []) steps in
     let pend = List.sort compare (List.map hnum (pending_handles yf)) in
     let p = "P" ^ String.concat "." (List.map string_of_int pend) in
     print_endline (String.concat " | " (List.rev outs @ [p]))
